@@ -36,17 +36,19 @@ func pubmessageObligations(c *an.Check) {
 	}
 	// context = constant ‖ the decoded inner's channel; the inner returned is that same decoded inner, decoded from the message's own data
 	ok, why := true, ""
+	var eavHelper *ssa.Function
 	vc := an.Calls(eav, cSignedEAV)
 	um := an.Calls(eav, cUnm)
 	if len(vc) != 1 || len(um) != 1 {
 		ok, why = false, "expected one decode and one verify call"
 	} else {
-		add, isAdd := vc[0].Call.Args[1].(*ssa.BinOp)
-		if !isAdd || !isNamedConst(add.X, "pubMessageEncContext") {
+		vConst, vChan, vHelper := ctxParts(p, vc[0].Call.Args[1])
+		if !vConst {
 			ok, why = false, "verification context is not the package constant followed by the channel"
-		} else if gc := an.ResultCallTo(add.Y, an.R(pmPkg, "PubMessageInner", "GetChannel")); gc == nil || gc.Call.Args[0] != um[0].Call.Args[0] {
+		} else if gc := an.ResultCallTo(vChan, an.R(pmPkg, "PubMessageInner", "GetChannel")); gc == nil || gc.Call.Args[0] != um[0].Call.Args[0] {
 			ok, why = false, "the channel in the verification context is not the decoded inner's channel"
 		}
+		eavHelper = vHelper
 		if ok && !an.IsParam(vc[0].Call.Args[0], 0) {
 			ok, why = false, "the signature verified is not the message parameter's"
 		}
@@ -68,8 +70,8 @@ func pubmessageObligations(c *an.Check) {
 	ns := an.Calls(npm, an.R("peer", "", "NewSignedMsg"))
 	okM := len(ns) == 1
 	if okM {
-		add, isAdd := ns[0].Call.Args[0].(*ssa.BinOp)
-		okM = isAdd && isNamedConst(add.X, "pubMessageEncContext") && an.IsParam(add.Y, 0)
+		sConst, sChan, sHelper := ctxParts(p, ns[0].Call.Args[0])
+		okM = sConst && an.IsParam(sChan, 0) && sHelper == eavHelper
 		chF := p.FieldVar(an.FieldRef{Pkg: pmPkg, Type: "PubMessageInner", Field: "Channel"})
 		rec := false
 		for _, a := range p.FieldAccesses(chF, []*ssa.Function{npm}) {
@@ -84,6 +86,30 @@ func pubmessageObligations(c *an.Check) {
 		an.FactReq("channel != \"\"", func(s *an.State, x, y ssa.Value, r an.Rel) bool {
 			return r&an.EQ == 0 && an.IsStrConst(y, "") && an.ResultCallTo(x, an.R(pmPkg, "PubMessageInner", "GetChannel")) != nil
 		})}})
+}
+
+// ctxParts decomposes a pubmessage signing context: the package constant followed by a channel id, written inline
+// (const + ch) or through a one-argument repository helper whose result is built from that constant (then the helper is
+// returned so that the sign and verify sides can be required to use the same one).
+func ctxParts(p *an.Prog, v ssa.Value) (hasConst bool, ch ssa.Value, helper *ssa.Function) {
+	if add, ok := v.(*ssa.BinOp); ok {
+		return isNamedConst(add.X, "pubMessageEncContext"), add.Y, nil
+	}
+	if call, ok := v.(*ssa.Call); ok && len(call.Call.Args) == 1 {
+		if f := call.Call.StaticCallee(); f != nil && f.Pkg != nil && strings.HasPrefix(f.Pkg.Pkg.Path(), an.Mod) && len(f.Blocks) > 0 {
+			okH := len(f.Params) == 1
+			for _, b := range f.Blocks {
+				for _, ins := range b.Instrs {
+					if r, isR := ins.(*ssa.Return); isR {
+						add, isAdd := r.Results[0].(*ssa.BinOp)
+						okH = okH && isAdd && isNamedConst(add.X, "pubMessageEncContext") && add.Y == ssa.Value(f.Params[0])
+					}
+				}
+			}
+			return okH, call.Call.Args[0], f
+		}
+	}
+	return false, nil, nil
 }
 
 func c27(c *an.Check) {
